@@ -26,6 +26,9 @@ type c13Case struct {
 	// Hung: a request timeout is configured and the node a redirection names never answers (the pipelines of
 	// C16 with every stalled request redirected first): the redirected request still has to terminate
 	Hung *c16Case `json:"hung_redirect_target,omitempty"`
+	// Outage > 0: node Outage-1 - the target of one of the redirections - was down a moment ago: a request routed
+	// to it failed while it refused connections; it is back (and serving direct requests) when the case starts
+	Outage int `json:"target_was_down,omitempty"`
 }
 
 // slots of the even 3-master layout: node 0: 0-5460, node 1: 5461-10921, node 2: 10922-16383
@@ -116,6 +119,18 @@ func c13Gen(t *rapid.T) c13Case {
 					c.Spec.Present = append(c.Spec.Present, k)
 				}
 			}
+		}
+	}
+	if rapid.IntRange(0, 3).Draw(t, "outage") == 0 {
+		var targets []int
+		for _, m := range c.Spec.Moved {
+			targets = append(targets, m.Node)
+		}
+		for _, m := range c.Spec.Migrating {
+			targets = append(targets, m.Dst)
+		}
+		if len(targets) > 0 {
+			c.Outage = 1 + rapid.SampledFrom(targets).Draw(t, "outagenode")
 		}
 	}
 	nh := 0
@@ -216,6 +231,14 @@ func c13Run(f *Fixture, orig *c13Case) []Discrepancy {
 		cc.Forget = append(cc.Forget, nr)
 	}
 	c := &cc
+	if c.Outage > 0 {
+		if msg := c13Outage(f, c.Outage-1); msg == caseDiscarded {
+			dropFixture(f)
+			return nil
+		} else if msg != "" {
+			return append(f.checkAlive("C13", nil), disc("C13/not-served-after-outage", "%s", msg))
+		}
+	}
 	ds := pipeRunCompare("C13", f, &c.Cfg, &c.Spec, 0)
 	if len(ds) == 0 && len(c.Forget) > 0 {
 		ds = c13Forget(f, c)
@@ -270,6 +293,39 @@ func c13Run(f *Fixture, orig *c13Case) []Discrepancy {
 		}
 	}
 	return ds
+}
+
+// c13Outage: node refuses connections while one request is routed to it, then comes back and serves a direct
+// request again. It returns a complaint if the node is not served afterwards.
+func c13Outage(f *Fixture, node int) string {
+	slot := []int{50, 6000, 12000}[node%3] // a slot the topology gives to that master, outside the pool of the cases
+	f.Cluster.SetDown(node, true)
+	time.Sleep(20 * time.Millisecond)
+	cl, err := rclient.Dial(f.Proxy.Addr(), "")
+	if err != nil {
+		f.Cluster.SetDown(node, false)
+		return "cannot connect: " + err.Error()
+	}
+	defer cl.Close()
+	cl.Write(refmodel.EncodeCmdS("set", refmodel.KeyInSlot(slot, "outage-probe"), "v"))
+	cl.WaitReplies(1, 3*time.Second)
+	if err := f.Cluster.SetDown(node, false); err != nil {
+		evidence.For("C13").Add("cases_discarded_node_port_lost", 1)
+		return caseDiscarded
+	}
+	time.Sleep(30 * time.Millisecond)
+	for attempt := 0; attempt < 40; attempt++ {
+		n := len(cl.Snapshot().Replies)
+		cl.Write(refmodel.EncodeCmdS("set", refmodel.KeyInSlot(slot, fmt.Sprintf("back-%d", attempt)), "v"))
+		if !cl.WaitReplies(n+1, 3*time.Second) {
+			return fmt.Sprintf("node %d is back, but a direct request for it got no reply within 3 s", node)
+		}
+		if st := cl.Snapshot(); !isErrorReply(st.Replies[n].Raw) {
+			return "" // served again
+		}
+		time.Sleep(50 * time.Millisecond)
+	}
+	return fmt.Sprintf("node %d is back, but direct requests for it are still answered with errors after 2 s", node)
 }
 
 // c13Forget: a client writes its requests and disconnects at once. The node that answers MOVED/ASK has not
@@ -350,6 +406,14 @@ func c13Forget(f *Fixture, c *c13Case) []Discrepancy {
 }
 
 func c13Classify(c *c13Case) (bool, []string) {
+	if c.Outage > 0 && c.Hung == nil {
+		nt, cls := c13ClassifyBase(c)
+		return nt, append(cls, "redirection-target-was-down-a-moment-ago")
+	}
+	return c13ClassifyBase(c)
+}
+
+func c13ClassifyBase(c *c13Case) (bool, []string) {
 	if c.Hung != nil {
 		return true, []string{"redirection-names-a-node-that-never-answers-with-a-timeout-configured"}
 	}
